@@ -308,7 +308,15 @@ def gen_pool_stress(rng, **kw):
     nmem = rng.randint(4, 8)
     pools = [("p%d" % i, rng.choice([1, 1, 2])) for i in range(rng.randint(1, 2))]
     lines = ["rule r", "  command = cmd $out $opts"]
+    if rng.random() < 0.1:
+        # a manifest with hundreds of pools (one per directory, say); the members use late ones
+        many = [("q%d" % i, 1) for i in range(300)]
+        for n_, d_ in many:
+            lines += ["pool %s" % n_, "  depth = %d" % d_]
+        pools = [many[i] for i in rng.sample(range(250, 300), 2)]
     for n_, d_ in pools:
+        if n_.startswith("q"):
+            continue
         lines += ["pool %s" % n_, "  depth = %d" % d_]
     for g in range(ngates):
         lines.append("build g%d: r gs%d" % (g, g))
